@@ -343,7 +343,6 @@ class HttpParser(abc.ABC, Generic[_MsgT]):
         data_len = len(data)
         start_pos = 0
         loop = self.loop
-        max_line_length = self.max_line_size
 
         should_close = False
         while start_pos < data_len or self._payload_has_more_data:
@@ -375,12 +374,14 @@ class HttpParser(abc.ABC, Generic[_MsgT]):
                     line = data[start_pos:pos]
                     if SEP == b"\n":  # For lax response parsing
                         line = line.rstrip(b"\r")
+                    # After the status/request line, everything is a header.
+                    max_line_length = (
+                        self.max_field_size if self._lines else self.max_line_size
+                    )
                     if len(line) > max_line_length:
                         raise LineTooLong(line[:100] + b"...", max_line_length)
 
                     self._lines.append(line)
-                    # After processing the status/request line, everything is a header.
-                    max_line_length = self.max_field_size
 
                     if len(self._lines) > self.max_headers:
                         raise BadHttpMessage("Too many headers received")
@@ -521,8 +522,15 @@ class HttpParser(abc.ABC, Generic[_MsgT]):
                     # bytes get appended to this line and leak in the error.
                     if b"\n" in self._tail:
                         raise BadHttpMessage("Bad line ending, expected CRLF")
-                    if len(self._tail) > self.max_line_size:
-                        raise LineTooLong(self._tail[:100] + b"...", self.max_line_size)
+                    # The limit that applies to the partial line depends on
+                    # whether it is a start line or a header field, not on where
+                    # the read boundary fell. A trailing CR may be the first half
+                    # of the line terminator and is not part of the line.
+                    max_line_length = (
+                        self.max_field_size if self._lines else self.max_line_size
+                    )
+                    if len(self._tail) - self._tail.endswith(b"\r") > max_line_length:
+                        raise LineTooLong(self._tail[:100] + b"...", max_line_length)
                     data = EMPTY
                     break
 
